@@ -315,6 +315,63 @@ def run(shard, ctx):
         # (3) bytes -> dict -> bytes
         mask = R.mask_bytes(nbytes, list(lf.values()))
         fresh_same_class()
+        # two CDBs decoded one right after the other that *look alike when written down carelessly*: the same hexadecimal digits
+        # when bytes below 10h are written with one digit (01 00 10 / 10 01 00 -> "1010"), the same text when bytes are joined
+        # without separators. Each decodes to its own values
+        runs, cur = [], []
+        for i in range(1, nbytes):
+            if mask[i] == 0xFF:
+                cur.append(i)
+            else:
+                if len(cur) >= 2:
+                    runs.append(cur)
+                cur = []
+        if len(cur) >= 2:
+            runs.append(cur)
+        for _ in range(0 if not runs else (40 if shard["n"] < 1000 else 400)):
+            run = rng.choice(runs)
+            L = len(run)
+            t1 = [rng.choice([1, 2]) for _i in range(L)]
+            if len(set(t1)) < 2:
+                t1[0], t1[-1] = 1, 2
+            t2 = list(t1)
+            for _try in range(8):
+                rng.shuffle(t2)
+                if t2 != t1:
+                    break
+            if t2 == t1:
+                continue
+            digits = "".join(rng.choice("123456789abcdef") for _i in range(sum(t1)))
+
+            def cut(ts):
+                out, pos = [], 0
+                for t in ts:
+                    out.append(int(digits[pos:pos + t], 16))
+                    pos += t
+                return out
+
+            pair = []
+            for ts in (t1, t2):
+                b = bytearray(nbytes)
+                b[0] = c.op
+                for idx, val in zip(run, cut(ts)):
+                    b[idx] = val
+                pair.append(bytes(b))
+            if pair[0] == pair[1]:
+                continue
+            ctx.count("look_alike_cdbs_decoded_in_turn")
+            try:
+                d1 = cls.unmarshall_cdb(bytearray(pair[0]))
+                d2 = cls.unmarshall_cdb(bytearray(pair[1]))
+                d1b = cls.unmarshall_cdb(bytearray(pair[0]))
+                back = [bytes(cls.marshall_cdb(dict(d))) for d in (d1, d2, d1b)]
+                if back != [pair[0], pair[1], pair[0]]:
+                    ctx.fail("C02:%s.look_alike_cdbs_confused" % c.name, "%s: %s and %s decoded in turn re-encode to %s" % (c.name, pair[0].hex(), pair[1].hex(), [x.hex() for x in back]),
+                             {"cmd": c.name, "cdbs": [pair[0].hex(), pair[1].hex()]})
+                    break
+            except Exception as e:  # noqa: BLE001
+                ctx.fail("C02:%s.roundtrip_raises" % c.name, "decoding look-alike CDBs raised %s" % type(e).__name__, {"cmd": c.name, "cdbs": [pair[0].hex(), pair[1].hex()]}, exc=e)
+                break
         for _ in range(shard["n"]):
             b = bytearray(rng.getrandbits(8) & mask[i] for i in range(nbytes))
             b[0] = c.op
